@@ -758,39 +758,54 @@ def rotate (s : State) (receiptsHash : Bytes) (lPoolSize counterPoolSize chain :
                     lockedHeight := s.height, receipts := if receipts = [] then n.receipts else receipts }
   setLocked (delNext s chain) chain n
 
-/-- `HandleRemoteDexBatch` -/
-def remoteDexBatch (s : State) (remote : Batch) (chain : Nat) (blockHash : Bytes) : M State := do
-  let mirror := remote.poolSize
-  let liq := liquidityId chain
-  if remote.isEmpty then
-    let canon := { remote with livenessFallback := false }
-    return rotate s canon.hash (getPool s liq).amount mirror chain []
-  -- 1) receipts for our locked batch
-  let lb := getBatch s chain true
-  let (s, mirror) ← if lb.isEmpty then pure (s, mirror) else do
-      if remote.receiptHash ≠ lb.hash ∨ lb.orders.length ≠ remote.receipts.length then
-        return s -- still waiting for the counter chain: nothing happens, no rotation
-      let lps := (getPool s liq).amount
-      let (s, x, y) ← orderReceipts chain lb.orders remote.receipts s lps mirror
-      let l ← batchWithdraw s lb.withdrawals chain x y true none true
-      let l ← batchDeposit l.s lb chain l.x l.y true
-      pure (delLocked l.s chain, l.y)
-  let mid := (getPool s liq).amount
-  -- 2) execute the remote chain's locked batch
-  let (s, x, y, receipts) ← dexBatchOrders s remote.orders blockHash mirror mid chain
-  let l ← batchWithdraw s remote.withdrawals chain x y false none true
+/-- steps 2 and 3 of `HandleRemoteDexBatch`: execute the remote chain's locked batch against
+(`mirror` = shadow of the counter pool, our liquidity pool), then rotate -/
+def executeRemote (s : State) (remote : Batch) (chain : Nat) (blockHash : Bytes) (mirror : Nat) : M State := do
+  let mid := (getPool s (liquidityId chain)).amount
+  let r ← dexBatchOrders s remote.orders blockHash mirror mid chain
+  let l ← batchWithdraw r.1 remote.withdrawals chain r.2.1 r.2.2.1 false none true
   let l ← batchDeposit l.s remote chain l.x l.y false
-  -- 3) rotate
   let canon := { remote with livenessFallback := false }
-  return rotate l.s canon.hash mid l.x chain receipts
+  pure (rotate l.s canon.hash mid l.x chain r.2.2.2)
+
+/-- step 1 of `HandleRemoteDexBatch` (`HandleReceiptsForOurLockedBatch`) once the receipt hash matched:
+the new state and the advanced mirror of the counter pool -/
+def applyReceipts (s : State) (lb remote : Batch) (chain : Nat) : M (State × Nat) := do
+  let r ← orderReceipts chain lb.orders remote.receipts s (getPool s (liquidityId chain)).amount remote.poolSize
+  let l ← batchWithdraw r.1 lb.withdrawals chain r.2.1 r.2.2 true none true
+  let l ← batchDeposit l.s lb chain l.x l.y true
+  pure (delLocked l.s chain, l.y)
+
+/-- `HandleRemoteDexBatch` -/
+def remoteDexBatch (s : State) (remote : Batch) (chain : Nat) (blockHash : Bytes) : M State :=
+  if remote.isEmpty then
+    .ok (rotate s ({ remote with livenessFallback := false } : Batch).hash (getPool s (liquidityId chain)).amount remote.poolSize chain [])
+  else
+    let lb := getBatch s chain true
+    if lb.isEmpty then executeRemote s remote chain blockHash remote.poolSize
+    else if remote.receiptHash ≠ lb.hash ∨ lb.orders.length ≠ remote.receipts.length then
+      .ok s -- still waiting for the counter chain: nothing happens, no rotation
+    else
+      match applyReceipts s lb remote chain with
+      | .error e => .error e
+      | .ok r => executeRemote r.1 remote chain blockHash r.2
+
+/-- refund `amount` from the holding pool to `a` -/
+def refund (chain : Nat) (s : State) (a : Bytes) (n : Nat) : M State := do
+  let s ← poolSub s (holdingId chain) n
+  accountAdd s a n
+
+def refundAll (chain : Nat) : List (Bytes × Nat) → State → M State
+  | [], s => .ok s
+  | (a, n) :: rest, s =>
+    match refund chain s a n with
+    | .error e => .error e
+    | .ok s => refundAll chain rest s
 
 /-- `HandleLivenessFallback` -/
 def livenessFallback (s : State) (chain : Nat) (lb remote : Batch) : M State := do
-  let refund (s : State) (a : Bytes) (n : Nat) : M State := do
-    let s ← poolSub s (holdingId chain) n
-    accountAdd s a n
-  let s ← lb.orders.foldlM (fun s o => refund s o.addr o.amount) s
-  let s ← lb.deposits.foldlM (fun s d => refund s d.addr d.amount) s
+  let s ← refundAll chain (lb.orders.map fun o => (o.addr, o.amount)) s
+  let s ← refundAll chain (lb.deposits.map fun d => (d.addr, d.amount)) s
   let p := getPool s (liquidityId chain)
   let s := setPool s (liquidityId chain) { p with points := remote.poolPoints, total := remote.totalPoolPoints }
   pure (setLocked s chain {})
@@ -806,18 +821,25 @@ def checkBasic (b : Batch) : M Unit := do
   if b.poolPoints.any (fun e => e.1.length ≠ 20) then throw .InvalidAddress
   if b.receiptHash.length > 100 then throw .InvalidBlockHash
 
-/-- `HandleDexBatch(chainId, results, isNested)` after `CheckBasic`; `remote = none` is a nil batch -/
-def handleDexBatch (s : State) (chain : Nat) (nested : Bool) (remote : Option Batch) (blockHash : Bytes) : M State := do
-  let chain := if nested then s.root else chain
+/-- `CheckBasic`, then `HandleDexBatch` once the chain id is resolved and the batch is not nil -/
+def dexBatchOn (s : State) (chain : Nat) (nested : Bool) (remote : Batch) (blockHash : Bytes) : M State :=
+  match checkBasic remote with
+  | .error e => .error e
+  | .ok _ =>
+    if !nested ∧ remote.poolPoints ≠ [] then .error .NonNilPoolPoints
+    else if (getPool s (liquidityId chain)).amount = 0 then .ok s
+    else if remote.livenessFallback then
+      match livenessFallback s chain (getBatch s chain true) remote with
+      | .error e => .error e
+      | .ok s1 => remoteDexBatch s1 remote chain blockHash
+    else remoteDexBatch s remote chain blockHash
+
+/-- `HandleDexBatch(chainId, results, isNested)` after `CheckBasic`; `remote = none` is a nil batch; a nested
+chain works on its root chain id -/
+def handleDexBatch (s : State) (chain : Nat) (nested : Bool) (remote : Option Batch) (blockHash : Bytes) : M State :=
   match remote with
-  | none => pure s
-  | some remote =>
-    checkBasic remote
-    if !nested ∧ remote.poolPoints ≠ [] then throw .NonNilPoolPoints
-    if (getPool s (liquidityId chain)).amount = 0 then return s
-    let lb := getBatch s chain true
-    let s ← if remote.livenessFallback then livenessFallback s chain lb remote else pure s
-    remoteDexBatch s remote chain blockHash
+  | none => .ok s
+  | some remote => dexBatchOn s (if nested then s.root else chain) nested remote blockHash
 
 /-- `IncludeSameBlockDex` for one stored locked batch -/
 def includeOne (s : State) (key : Nat) (b : Batch) : State :=
